@@ -36,7 +36,9 @@ def quiet():
 def parse_sources(case):
     from loki import Sourcefile, Frontend
     files, defs = {}, []
-    for fname, text in case['sources']:
+    # `loki_sources` (optional): what Loki parses when the *reference* program (`sources`) is a harness-side
+    # rewrite of it (staged transformations whose intermediate step changes the meaning consistently)
+    for fname, text in case.get('loki_sources', case['sources']):
         sf = Sourcefile.from_source(text, frontend=Frontend.FP, definitions=defs)
         files[fname] = sf
         defs = defs + list(sf.modules) + list(sf.routines)
